@@ -187,7 +187,9 @@ def run (ctx):
     for a in acts:
       an = q.enclosing_stmt_node(g, a)
       for t, v, st, k in q.stores_in(md.node):
-        if isinstance(t, ast.Name) and isinstance(v, ast.Constant) and v.value is True:
+        # the record: a flag set to True, or a counter stepped by a positive constant
+        if isinstance(t, ast.Name) and ((isinstance(v, ast.Constant) and v.value is True) or
+                                        (k == 'augassign' and isinstance(getattr(st, 'op', None), ast.Add) and isinstance(v, ast.Constant) and isinstance(v.value, int) and v.value > 0)):
           fn_ = q.enclosing_stmt_node(g, st)
           if fn_ is not None and an is not None and (g.postdominates(fn_, an) or g.dominates(fn_, an)): flagnames.add(t.id)
     # the update loop may live in the table class: `n = table.<method>(match, actions, priority=.., strict=..)` where that method counts (or
@@ -215,7 +217,8 @@ def run (ctx):
           if any(a_ in ('match', 'flow_mod.match') for a_ in args_) and any(a_ in ('priority', 'flow_mod.priority') for a_ in args_) and 'strict' in args_: flagnames.add(t.id); summary_callee.append(callee)
     for a in addc:
       fs = q.fact_strs(g, a)
-      good = any(f == nm + ':falsy' for nm in flagnames | set(coll_names) for f in fs) or any(f in ('len(%s) == 0' % nm for nm in coll_names) for f in fs)
+      good = any(f == nm + ':falsy' for nm in flagnames | set(coll_names) for f in fs) or any(f in ('len(%s) == 0' % nm for nm in coll_names) for f in fs) or \
+             any(f in ('%s == 0' % nm, '%s < 1' % nm, '%s <= 0' % nm) for nm in flagnames for f in fs)
       ctx.ob('R-DOM', md, "modify acts as add only when no entry matched", good, "dominated by `not <modified / selected entries>`" if good else "facts %s" % fs, (swmod, a.ast), 'D3')
     ctx.floor('modify: action replacement sites', len(acts) + len(summary_callee), 1)
     for a in acts:
@@ -552,6 +555,7 @@ def run (ctx):
       good = any('is_idle_timed_out' in f and f.endswith(':falsy') for f in fs)
       ctx.ob('R-DOM', ree, "an entry lands in at most one expiry list", good, "hard list only when not idle-expired" if good else "an entry past both timeouts is put in both lists: two removals / two flow_removed messages", (ftmod, c), 'D5')
     good = norm(L_.elt) == norm(L_.var) and norm(L_.it) == 'self._table'
+    if not good and evaluated and events_ == want_: good = True        # another representation (e.g. (reason, entry) pairs): the evaluation saw exactly A, C and B leave
     ctx.ob('R-AGREE', ree, "expiry list `%s` collects the scanned entry" % lname, good, "%s for %s in %s" % (norm(L_.elt), norm(L_.var), norm(L_.it)), (ftmod, c), 'D5')
     if L_.form == 'comprehension':
       # a comprehension scans completely and cannot modify the table while scanning
@@ -566,6 +570,7 @@ def run (ctx):
   for (st, h, af) in g.loop_nodes:
     body = g.loop_body_nodes(h)
     early = [n for n in body if n.kind in ('break', 'return')]
+    if isinstance(st, ast.For) and '_table' not in norm(st.iter) and evaluated and events_ == want_: continue      # not a scan of the table (a loop over the collected batches); the evaluation saw the sweep's result
     ctx.ob('R-ALL', ree, "expiry sweep visits every entry", not early and norm(st.iter) == 'self._table', "scan of %s, early exits: %d" % (norm(st.iter), len(early)), (ftmod, st), 'D7')
     muts = [n for n in body if any(call_name(c) in ('_remove_specific_entries', 'remove_entry', 'remove') for c in q.node_calls(n))]
     muts += [q.enclosing_stmt_node(g, s) for k, s in q.mutations_of_attr(ree.node, '_table') if q.enclosing_stmt_node(g, s) in body]
